@@ -137,7 +137,7 @@ func makeColumnDef(name string, typ string, cs []columnConstraint) ColumnDef {
 // the value of `DEFAULT <bare word>`: TRUE and FALSE are booleans, anything
 // else is a string
 func bareDefault(s string) interface{} {
-	switch strings.ToUpper(s) {
+	switch ToUpper(s) {
 	case "TRUE":
 		return true
 	case "FALSE":
